@@ -63,6 +63,20 @@ struct Scenario
 		w->on_build = [cap, bw](World& ww, sim::simulation&) { auto q = ww.queue(bw, ms(5), cap); ww.chan = [q](ip::address, ip::address) { return World::hops_t{ q }; }; };
 		sim.reset(new sim::simulation(*w));
 	}
+	// one queue followed by a hop that drops the first and the third payload segment it sees (each once)
+	void drop_some_world()
+	{
+		w.reset(new World);
+		auto seen = std::make_shared<int>(0);
+		w->on_build = [seen](World& ww, sim::simulation& s) {
+			auto q = ww.queue(0, ms(5), 0);
+			auto adv = std::make_shared<Adversary>(); adv->sim_ = &s;
+			adv->decide = [seen](sim::aux::packet const& p) { if (p.type != sim::aux::packet::type_t::payload || !p.drop_fun || p.from.address() != addr("10.0.0.1")) return 0; int k = (*seen)++; return (k == 0 || k == 2) ? 1 : 0; };
+			ww.keep.push_back(adv);
+			ww.chan = [q, adv](ip::address, ip::address) { return World::hops_t{ q, adv }; };
+		};
+		sim.reset(new sim::simulation(*w));
+	}
 	// an independent TCP transfer and a UDP flow between two other nodes
 	void start_bystander()
 	{
@@ -194,11 +208,11 @@ struct ConnectRefused : Scenario
 // an established connection with reads / writes / waits outstanding on both ends, optionally over a lossy route
 struct Established : Scenario
 {
-	int kind; // 0 read pending (no data), 1 blocked write, 2 wait-for-read pending, 3 bulk transfer (loss-free), 4 bulk transfer over a lossy route, 5 bulk transfer both ways over a lossy route (each end reads and writes)
+	int kind; // 0 read pending (no data), 1 blocked write, 2 wait-for-read pending, 3 bulk transfer (loss-free), 4 bulk transfer over a lossy route, 5 bulk transfer both ways over a lossy route (each end reads and writes), 8 bulk transfer over a lossy route by a writer that never posts a read: once its last write is accepted it has NO operation outstanding while segments still await acknowledgement or retransmission - the only state in which such a socket may be moved
 	std::string nm;
 	std::unique_ptr<ip::tcp::socket> cli, srv; std::unique_ptr<ip::tcp::acceptor> acc;
 	std::vector<char> rb, wb, rb2, rbc; int64_t sent = 0, total = 0, sent_s = 0; std::string got, got_c; bool accept_done = false; std::unique_ptr<asio::high_resolution_timer> late;
-	Established(int k) : kind(k) { static const char* n[] = { "tcp-read-pending", "tcp-write-blocked", "tcp-wait-read-pending", "tcp-bulk-lossfree", "tcp-bulk-lossy", "tcp-duplex-lossy", "tcp-read-started-from-a-handler-with-data-queued", "tcp-wait-read-started-from-a-handler-with-data-queued" }; nm = n[k]; }
+	Established(int k) : kind(k) { static const char* n[] = { "tcp-read-pending", "tcp-write-blocked", "tcp-wait-read-pending", "tcp-bulk-lossfree", "tcp-bulk-lossy", "tcp-duplex-lossy", "tcp-read-started-from-a-handler-with-data-queued", "tcp-wait-read-started-from-a-handler-with-data-queued", "tcp-bulk-lossy-writer-posts-no-read" }; nm = n[k]; }
 	const char* name() const override { return nm.c_str(); }
 	void reader()
 	{
@@ -234,12 +248,13 @@ struct Established : Scenario
 				late->async_wait([this](error_code const& ec) { if (ec || dead[1] || !srv || !srv->is_open()) return; Frame f(this);
 					if (kind == 6) srv->async_read_some(asio::buffer(rb), h_ec_n(rec("S.read", 1))); else srv->async_wait(ip::tcp::socket::wait_read, h_ec(rec("S.wait_read", 1))); });
 				break;
+			case 8: total = 200; reader(); writer(); break; // one small segment: accepted at once, dropped on its way with nothing else in flight, retransmitted by the timer
 			default: total = 30000; reader(); writer(); break;
 		}
 	}
 	void build() override
 	{
-		if (kind >= 4) basic_world(4000, 200000); else basic_world();
+		if (kind == 8) drop_some_world(); else if (kind >= 4) basic_world(4000, 200000); else basic_world();
 		asio::io_context& a = node("10.0.0.1"); asio::io_context& b = node("10.0.1.1");
 		acc.reset(new ip::tcp::acceptor(b)); acc->open(ip::tcp::v4()); acc->bind(ip::tcp::endpoint(addr("10.0.1.1"), 6000)); acc->listen();
 		cli.reset(new ip::tcp::socket(a)); srv.reset(new ip::tcp::socket(b)); rb.resize(1000); wb.resize(30000); for (size_t i = 0; i < wb.size(); ++i) wb[i] = char(i * 11 + 1);
@@ -351,7 +366,7 @@ std::vector<std::function<std::unique_ptr<Scenario>()>> scenario_table()
 	for (int e = 1; e <= 2; ++e) for (int wn = 0; wn < 2; ++wn) t.push_back([e, wn]() { return std::unique_ptr<Scenario>(new ConnectAccept(e == 1 ? 0 : 2, wn, e)); });
 	t.push_back([]() { std::unique_ptr<ConnectAccept> c(new ConnectAccept(0, 0)); c->loop = true; c->nm = "connect-accept(server-style accept loop)"; return std::unique_ptr<Scenario>(std::move(c)); });
 	t.push_back([]() { return std::unique_ptr<Scenario>(new ConnectRefused); });
-	for (int k = 0; k < 8; ++k) t.push_back([k]() { return std::unique_ptr<Scenario>(new Established(k)); });
+	for (int k = 0; k < 9; ++k) t.push_back([k]() { return std::unique_ptr<Scenario>(new Established(k)); });
 	for (int k = 0; k < 6; ++k) t.push_back([k]() { return std::unique_ptr<Scenario>(new UdpOps(k)); });
 	for (int k = 0; k < 4; ++k) t.push_back([k]() { return std::unique_ptr<Scenario>(new Resolve(k)); });
 	return t;
